@@ -850,48 +850,74 @@ Proof. unfold hclone, hread; cbn [fst snd]. rewrite app_nth2 by lia. rewrite Nat
 Lemma hread_clone_old hp src a : (a < length hp)%nat -> hread (fst (hclone hp src)) a = hread hp a.
 Proof. intros H. unfold hclone, hread; cbn [fst]. apply app_nth1; exact H. Qed.
 
-(* overwrite = False: fresh storage is returned, every cell of the caller's heap is unchanged *)
-Lemma overwrite_false_contract skip k hp src draws :
+(* overwrite = False (any dtype): fresh storage is returned, every cell of the caller's heap is unchanged *)
+Lemma overwrite_false_contract skip sd k hp src draws :
   (src < length hp)%nat ->
-  let res := gibbs_call skip false k hp src draws in
+  let res := gibbs_call skip false sd k hp src draws in
   snd res = length hp /\ snd res <> src /\
   (forall a, (a < length hp)%nat -> hread (fst res) a = hread hp a).
 Proof.
-  intros Hs. unfold gibbs_call. cbn [hclone fst snd]. repeat split; [lia|].
+  intros Hs. unfold gibbs_call. cbn [andb hclone fst snd]. repeat split; [lia|].
   intros a Ha. rewrite run_in_place_other by lia. apply (hread_clone_old hp src a Ha).
 Qed.
 
-(* overwrite = True: the caller's own cell is returned; no other cell changes, nothing is allocated *)
-Lemma overwrite_true_contract skip k hp src draws :
-  let res := gibbs_call skip true k hp src draws in
-  snd res = src /\ length (fst res) = length hp /\
-  (forall a, a <> src -> hread (fst res) a = hread hp a).
+(* overwrite = True, any dtype of the start tensor: after the call the caller's cell holds the returned
+   result, and no other cell of the caller's heap has changed *)
+Lemma overwrite_true_contract skip sd k hp src draws :
+  (src < length hp)%nat ->
+  let res := gibbs_call skip true sd k hp src draws in
+  hread (fst res) src = hread (fst res) (snd res) /\
+  (forall a, (a < length hp)%nat -> a <> src -> hread (fst res) a = hread hp a).
 Proof.
-  unfold gibbs_call. cbn [fst snd]. split; [reflexivity|]. split; [apply run_in_place_length|].
-  intros a Ha. apply run_in_place_other; exact Ha.
+  intros Hs. unfold gibbs_call. destruct sd; cbn [andb negb hclone fst snd].
+  - split; [reflexivity|]. intros a _ Ha. apply run_in_place_other; exact Ha.
+  - set (hp2 := run_in_place skip k (hp ++ [hread hp src]) (length hp) draws).
+    assert (Hl2 : length hp2 = S (length hp))
+      by (unfold hp2; rewrite run_in_place_length, app_length; cbn [length]; lia).
+    split.
+    + rewrite hread_hwrite_same by lia. rewrite hread_hwrite_other by lia. reflexivity.
+    + intros a Ha Hne. rewrite hread_hwrite_other by congruence.
+      unfold hp2. rewrite run_in_place_other by lia. apply (hread_clone_old hp src a Ha).
 Qed.
 
-(* in both modes the returned cell holds the sampler's result started from the caller's state *)
-Lemma b_call_result (r : brbm (T:=R)) ow k hp src draws :
+(* ... and with a start tensor of the parameters' dtype the caller's own cell is the one returned and
+   nothing is allocated *)
+Lemma overwrite_true_same_dtype skip k hp src draws :
+  let res := gibbs_call skip true true k hp src draws in
+  snd res = src /\ length (fst res) = length hp.
+Proof.
+  unfold gibbs_call. cbn [andb negb fst snd]. split; [reflexivity | apply run_in_place_length].
+Qed.
+
+(* in every mode the returned cell holds the sampler's result started from the caller's state *)
+Lemma b_call_result (r : brbm (T:=R)) ow sd k hp src draws :
   (src < length hp)%nat -> length draws = (2 * k)%nat ->
-  let res := b_gibbs_call ow k hp src draws in
+  let res := b_gibbs_call ow sd k hp src draws in
   hread (fst res) (snd res) = fst (b_gibbs_steps ROps r k (hread hp src) draws).
 Proof.
-  intros Hs Hl. unfold b_gibbs_call, gibbs_call. destruct ow; cbn [fst snd].
+  intros Hs Hl. unfold b_gibbs_call, gibbs_call.
+  assert (Hclone : hread (run_in_place 1 k (hp ++ [hread hp src]) (length hp) draws) (length hp) =
+                   fst (b_gibbs_steps ROps r k (hread hp src) draws)).
+  { rewrite (run_in_place_binary r) by (try rewrite app_length; cbn [length]; try lia; exact Hl).
+    f_equal. f_equal. apply (hread_clone hp src). }
+  destruct ow, sd; cbn [andb negb hclone fst snd]; try exact Hclone.
   - apply run_in_place_binary; assumption.
-  - unfold hclone; cbn [fst snd]. rewrite (run_in_place_binary r) by (try rewrite app_length; cbn [length]; try lia; exact Hl).
-    f_equal. f_equal. apply (hread_clone hp src).
+  - rewrite hread_hwrite_other by lia. exact Hclone.
 Qed.
 
-Lemma p_call_result (r : prbm (T:=R)) ow k hp src draws :
+Lemma p_call_result (r : prbm (T:=R)) ow sd k hp src draws :
   (src < length hp)%nat -> length draws = (3 * k)%nat ->
-  let res := p_gibbs_call ow k hp src draws in
+  let res := p_gibbs_call ow sd k hp src draws in
   hread (fst res) (snd res) = fst (p_gibbs_steps ROps r k (hread hp src) draws).
 Proof.
-  intros Hs Hl. unfold p_gibbs_call, gibbs_call. destruct ow; cbn [fst snd].
+  intros Hs Hl. unfold p_gibbs_call, gibbs_call.
+  assert (Hclone : hread (run_in_place 2 k (hp ++ [hread hp src]) (length hp) draws) (length hp) =
+                   fst (p_gibbs_steps ROps r k (hread hp src) draws)).
+  { rewrite (run_in_place_purification r) by (try rewrite app_length; cbn [length]; try lia; exact Hl).
+    f_equal. f_equal. apply (hread_clone hp src). }
+  destruct ow, sd; cbn [andb negb hclone fst snd]; try exact Hclone.
   - apply run_in_place_purification; assumption.
-  - unfold hclone; cbn [fst snd]. rewrite (run_in_place_purification r) by (try rewrite app_length; cbn [length]; try lia; exact Hl).
-    f_equal. f_equal. apply (hread_clone hp src).
+  - rewrite hread_hwrite_other by lia. exact Hclone.
 Qed.
 
 (* ------------------------------------------------------------------ non-vacuity of the guards *)
